@@ -337,6 +337,15 @@ fn builtin_char(args: Vec<Rc<Object>>) -> Result<Rc<Object>, String> {
                 Ok(Rc::new(Object::Null))
             }
         }
+        Object::Bool(b) => Ok(Rc::new(Object::Char(char::from(*b as u8)))),
+        Object::Str(s) => {
+            // a string of exactly one character converts to that character
+            let mut it = s.chars();
+            match (it.next(), it.next()) {
+                (Some(c), None) => Ok(Rc::new(Object::Char(c))),
+                _ => Ok(Rc::new(Object::Null)),
+            }
+        }
         _ => Err(String::from("unsupported argument")),
     }
 }
@@ -370,6 +379,13 @@ fn builtin_byte(args: Vec<Rc<Object>>) -> Result<Rc<Object>, String> {
             } else {
                 // failed to parse float
                 Ok(Rc::new(Object::Null))
+            }
+        }
+        Object::Str(s) => {
+            // a string of exactly one byte converts to that byte
+            match s.as_bytes() {
+                [b] => Ok(Rc::new(Object::Byte(*b))),
+                _ => Ok(Rc::new(Object::Null)),
             }
         }
         _ => Err(String::from("unsupported argument")),
